@@ -349,6 +349,57 @@ def run_mixer(case):
 
 
 # --------------------------------------------------------------------------
+# events sharing one source iterator
+# --------------------------------------------------------------------------
+def strat_shared(tier):
+  return st.fixed_dictionaries(dict(
+    n=st.integers(2, 14), deltas=st.lists(st.sampled_from([0, 1, 2, 3, Q(1, 2), Q(3, 2)]), min_size=2, max_size=4),
+    kind=st.sampled_from(["stream", "iter", "gen"]), other=st.lists(st.integers(-3, 3), max_size=4),
+    other_at=st.integers(0, 3)))
+
+
+def run_shared(case):
+  n, deltas = case["n"], case["deltas"]
+  data = list(range(1, n + 1))
+  src = {"stream": Stream, "iter": iter, "gen": lambda v: (t for t in v)}[case["kind"]](list(data))
+  mix = Streamix(zero=0)
+  t = Fraction(0)
+  starts = []
+  for i, d in enumerate(deltas):
+    mix.add(d, src)                     # the very same object every time
+    t += Fraction(d)
+    starts.append(max(nearest_sample(t), starts[-1] if starts else 0))
+  got = list(mix)
+  # operational reference: at every sample each event that has started (in start order) draws the
+  # next item of the shared source; an event that finds it exhausted is finished
+  shared = iter(data)
+  playing, pending, out, k = [], list(range(len(starts))), [], 0
+  while True:
+    while pending and starts[pending[0]] <= k:
+      playing.append(pending.pop(0))
+    v = 0
+    done = []
+    for ev in playing:
+      try:
+        v = v + next(shared)
+      except StopIteration:
+        done.append(ev)
+    for ev in done:
+      playing.remove(ev)
+    if not playing and not pending:
+      break
+    out.append(v)
+    k += 1
+    if k > 200:
+      raise Violation("reference mixer did not end")
+  if got != out:
+    raise Violation("events sharing one %s (items 1..%d) with deltas %r: mixer gives %r, expected %r"
+                    % (case["kind"], n, deltas, got, out))
+  overlap = any(starts[i + 1] < starts[i] + n for i in range(len(starts) - 1))
+  return {"nontrivial": overlap and len(out) >= 3, "labels": ["source:" + case["kind"], "%d events" % len(deltas)]}
+
+
+# --------------------------------------------------------------------------
 # drift: long runs of equal fractional deltas, closed-form start times
 # --------------------------------------------------------------------------
 def run_drift(case):
@@ -660,6 +711,9 @@ CLAUSES = [
          floors={"overlap": .06, "late add": .04},
          doc="the same with an array-like zero/sample type whose += works in place "
              "(zero + items must not modify the zero value)"),
+  Clause("shared_source", strat_shared, run_shared, quick=400, thorough=4000,
+         doc="several events given the same iterator object: each playing event draws its next item at every "
+             "sample (an event is an entry of the event list, not an iterator identity)"),
   Clause("drift", strat_drift, run_drift, quick=400, thorough=4000,
          floors={"delta:float": .12, "delta:Q": .15, "added in two batches": .1},
          doc="30-400 equal fractional deltas: every start sample equals the closed form "
